@@ -96,6 +96,19 @@ func main() {
 		usage()
 	}
 	seed, _ := strconv.Atoi(os.Getenv("VERIF_SEED"))
+	if id == "all" {
+		// developer convenience: every property in one process (shared load and rule cache)
+		worst := 0
+		for _, p := range properties {
+			if len(p.Uses) == 0 {
+				continue
+			}
+			if c := checkProperty(p, tier, seed); c > worst {
+				worst = c
+			}
+		}
+		os.Exit(worst)
+	}
 	for _, p := range properties {
 		if p.ID == id {
 			code := checkProperty(p, tier, seed)
